@@ -1,8 +1,8 @@
 (* Obligations on the tables regenerated from the source (gen/G11_api.v, gen/G11_unload.v), and the
    concrete states used by the non-vacuity examples of props/C11.v. *)
 From Coq Require Import ZArith List Bool String.
-From IPV8V Require Import lib.PyErr lib.Bytes model.M11_listeners model.M11_tasks model.M11_lifecycle
-  gen.G11_api gen.G11_unload proofs.P11_listeners proofs.P11_tasks proofs.P11_lifecycle.
+From IPV8V Require Import lib.PyErr lib.Bytes model.M11_listeners model.M11_tasks model.M11_lifecycle model.M11_service
+  gen.G11_api gen.G11_unload proofs.P11_listeners proofs.P11_tasks proofs.P11_lifecycle proofs.P11_service.
 Import ListNotations.
 Open Scope Z_scope.
 
@@ -50,6 +50,22 @@ Lemma shipped_classes_listed_l :
   ["DiscoveryCommunity"; "DHTCommunity"; "DHTDiscoveryCommunity"; "TunnelCommunity"; "HiddenTunnelCommunity";
    "PexCommunity"; "AttestationCommunity"; "IdentityCommunity"]%string.
 Proof. vm_compute. reflexivity. Qed.
+
+(* IPv8.unload_overlay as it is in the source rebuilds both lists and calls unload() *)
+Lemma shipped_service_unload_complete_l : complete_service_unload service_unload_steps = true.
+Proof. vm_compute. reflexivity. Qed.
+
+Lemma shipped_unloaded_overlay_not_stepped_l : forall s x ops,
+  Forall (fun o => adds x o = false) ops ->
+  let s1 := fst (sop_apply service_unload_steps s (SUnloadOverlay x)) in
+  Forall (fun e => snd e <> x) (snd (srun service_unload_steps s1 ops))
+  /\ (forall e, In e (v_strategies (fst (srun service_unload_steps s1 ops))) -> snd e <> x)
+  /\ ~ In x (v_overlays s1).
+Proof.
+  intros s x ops Ha. cbv zeta.
+  destruct (unloaded_overlay_not_stepped_l service_unload_steps s x ops shipped_service_unload_complete_l Ha) as [A B].
+  split; [exact A|split; [exact B|]]. apply unloaded_overlay_unlisted_l. exact shipped_service_unload_complete_l.
+Qed.
 
 (* ------------------------------------------------------------------ concrete states for the examples *)
 Definition pT : bytes := [0; 2] ++ repeat 129 20.          (* a 22-byte prefix *)
